@@ -427,7 +427,15 @@ type FuncMap map[string]interface{}
 // It panics if a value in the map is not a function with appropriate return
 // type. However, it is legal to overwrite elements of the map. The return
 // value is the template, so calls can be chained.
+//
+// It also panics if a name in the map is the name of one of the functions that this
+// package adds to the pipelines of actions.
 func (t *Template) Funcs(funcMap FuncMap) *Template {
+	for name := range funcMap {
+		if _, reserved := funcs[name]; reserved {
+			panic(fmt.Sprintf("html/template: function name %q is reserved for the sanitizers of this package", name))
+		}
+	}
 	t.text.Funcs(template.FuncMap(funcMap))
 	return t
 }
